@@ -593,6 +593,11 @@ impl<'ast, 'res> Resolver<'ast, 'res> {
         self.current_owner = function_id;
         self.current_function = Some(function_id);
 
+        // A function body starts outside any loop: `comot`/`next` cannot reach a loop
+        // that encloses the definition.
+        let prev_in_loop = self.in_loop;
+        self.in_loop = 0;
+
         let param_scope =
             self.facts.push_scope(Some(self.current_scope()), self.current_owner, body.span);
         self.scope_stack.push(param_scope);
@@ -628,6 +633,7 @@ impl<'ast, 'res> Resolver<'ast, 'res> {
         // Restore previous function context
         self.current_owner = prev_owner;
         self.current_function = prev_function;
+        self.in_loop = prev_in_loop;
     }
 
     fn check_return_stmt(&mut self, expr: Option<ExprRef<'ast>>, span: &'ast Span) {
